@@ -3,6 +3,8 @@
    everything property C08 constrains.  One answer per trace line: "." inside a block, the verdict at `END A`. -/
 import Hw.Topo.Restrict
 import Hw.Topo.RestrictLemmas
+import Hw.Topo.Render
+import Hw.Topo.RenderLemmas
 import Hw.Topo.WF
 import Driver.Topo
 import Driver.Util
@@ -124,6 +126,54 @@ def levelsOfDump (d : Dump) : List (List Nat) :=
     | some l => l.objs.map (fun i => match d.obj? i with | some o => o.gp | none => 0)
     | none => [])
 
+/-! ### the renderer tie: render (tree) must equal the real dump as a whole -/
+
+def gpTable (d : Dump) : Array (Option Obj) :=
+  let n := (d.objs.foldl (fun m o => max m o.gp) 0) + 1
+  d.objs.foldl (fun (a : Array (Option Obj)) o => a.set! o.gp (some o)) (Array.replicate n none)
+
+def lookupGp (tbl : Array (Option Obj)) (gp : Nat) : Option Obj := (tbl[gp]?).getD none
+
+/-- carried fields: attributes / names / infos from `stat` (restrict never touches them), symmetric_subtree and total_memory
+    from `live` (recomputed by code that is not modelled here) -/
+def extraOf (stat live : Array (Option Obj)) (o : RObj) : Extra :=
+  let a := lookupGp stat o.gp
+  let b := lookupGp live o.gp
+  { symm := (b.map (·.symm)).getD 0, totalMem := (b.map (·.totalMem)).getD 0, attrs := (a.map (·.attrs)).getD [],
+    subtype := (a.map (·.subtype)).getD none, name := (a.map (·.name)).getD none, infos := (a.map (·.infos)).getD [] }
+
+def objDiff (m r : Obj) : String :=
+  let f (n : String) (b : Bool) : List String := if b then [] else [n]
+  "+".intercalate (
+    f "id" (m.id == r.id) ++ f "type" (m.type == r.type) ++ f "depth" (m.depth == r.depth) ++ f "lidx" (m.lidx == r.lidx) ++
+    f "osidx" (m.osidx == r.osidx) ++ f "gp" (m.gp == r.gp) ++ f "parent" (m.parent == r.parent) ++ f "rank" (m.rank == r.rank) ++
+    f "arity" (m.arity == r.arity) ++ f "marity" (m.marity == r.marity) ++ f "ioarity" (m.ioarity == r.ioarity) ++
+    f "miscarity" (m.miscarity == r.miscarity) ++ f "nextSib" (m.nextSib == r.nextSib) ++ f "prevSib" (m.prevSib == r.prevSib) ++
+    f "nextCousin" (m.nextCousin == r.nextCousin) ++ f "prevCousin" (m.prevCousin == r.prevCousin) ++
+    f "firstChild" (m.firstChild == r.firstChild) ++ f "lastChild" (m.lastChild == r.lastChild) ++ f "memFirst" (m.memFirst == r.memFirst) ++
+    f "ioFirst" (m.ioFirst == r.ioFirst) ++ f "miscFirst" (m.miscFirst == r.miscFirst) ++ f "symm" (m.symm == r.symm) ++
+    f "cpuset" (m.cpuset == r.cpuset) ++ f "ccpuset" (m.ccpuset == r.ccpuset) ++ f "nodeset" (m.nodeset == r.nodeset) ++
+    f "cnodeset" (m.cnodeset == r.cnodeset) ++ f "totalMem" (m.totalMem == r.totalMem) ++ f "attrs" (m.attrs == r.attrs) ++
+    f "children" (m.children == r.children) ++ f "subtype" (m.subtype == r.subtype) ++ f "name" (m.name == r.name) ++
+    f "infos" (m.infos == r.infos))
+
+/-- first difference between the rendered dump `m` and the real dump `r` -/
+def dumpDiff (m r : Dump) : Option String :=
+  if m == r then none else
+  if m.flags != r.flags || m.filters != r.filters || m.allowedCpuset != r.allowedCpuset || m.allowedNodeset != r.allowedNodeset then some "header"
+  else if m.depth != r.depth then some ("depth:model=" ++ toString m.depth)
+  else if m.root != r.root || m.nobjs != r.nobjs || m.objs.length != r.objs.length then some ("nobjs:model=" ++ toString m.nobjs)
+  else match (m.objs.zip r.objs).find? (fun (a, b) => a != b) with
+    | some (a, b) => some ("obj" ++ toString b.id ++ ":" ++ objDiff a b)
+    | none =>
+      if m.levels != r.levels then
+        match (m.levels.zip r.levels).find? (fun (a, b) => a != b) with
+        | some (a, _) => some ("level" ++ toString a.depth)
+        | none => some "levels-count"
+      else if m.typeDepths != r.typeDepths then some "typeDepths" else some "?"
+
+def hdrOf (d : Dump) : Hdr := ⟨d.flags, d.filters, d.allowedCpuset, d.allowedNodeset⟩
+
 def verdict (st : State) (c : Call) (bd : Dump) (braw : List (List String)) (ad : Dump) (araw : List (List String)) : String :=
   match buildTree bd with
   | .error e => "MODEL-INPUT-ERROR before-dump-is-not-a-tree:" ++ e
@@ -132,6 +182,12 @@ def verdict (st : State) (c : Call) (bd : Dump) (braw : List (List String)) (ad 
     -- the hypothesis of the exactness theorems must hold on every well-formed BEFORE dump (WF implies SetsOK)
     let hyp := (if okT tree || !(wfCheck bd).isEmpty then [] else ["hypothesis-SetsOK-fails-on-a-WF-before-dump"]) ++
                (if st.selfcheck && (connectLevels tree).map (·.map (·.gp)) != levelsOfDump bd then ["selfcheck-levels-model-before"] else [])
+    -- renderer tie on the BEFORE dump: links and levels recomputed from the bare tree must reproduce hwloc's
+    let tb := gpTable bd
+    let hyp := hyp ++ (match dumpDiff (render tree (hdrOf bd) (extraOf tb tb)) bd with
+      | none => [] | some s => ["render-before:" ++ s]) ++
+      -- hypothesis of the link theorems (C08_render_links): every well-formed topology has a typed tree
+      (if (typedT tree && isNormal tree.obj.type) || !(wfCheck bd).isEmpty then [] else ["hypothesis-typedT-fails-on-a-WF-before-dump"])
     let (topo', ret) := restrict topo c.set c.flags
     match ret with
     | .rootRemoved => "MODEL-UNDEFINED root-would-be-removed"
@@ -148,7 +204,12 @@ def verdict (st : State) (c : Call) (bd : Dump) (braw : List (List String)) (ad 
         (if ad.allowedCpuset == some topo'.allowedCpu then [] else ["allowed-cpuset:model=" ++ toHex topo'.allowedCpu]) ++
         (if ad.allowedNodeset == some topo'.allowedNode then [] else ["allowed-nodeset:model=" ++ toHex topo'.allowedNode]) ++
         (if ad.filters == bd.filters && ad.flags == bd.flags then [] else ["flags-or-filters-changed"]) ++
-        (if wf.isEmpty then [] else ["after-dump-not-WF:" ++ "+".intercalate (wf.take 4)])
+        (if wf.isEmpty then [] else ["after-dump-not-WF:" ++ "+".intercalate (wf.take 4)]) ++
+        -- renderer tie on the AFTER dump: the whole dump (every link, level and type depth) predicted from the model's tree
+        (match dumpDiff (render topo'.tree ⟨bd.flags, bd.filters, some topo'.allowedCpu, some topo'.allowedNode⟩
+                          (extraOf tb (gpTable ad))) ad with
+          | none => [] | some s => ["render-after:" ++ s]) ++
+        (if (typedT topo'.tree && isNormal topo'.tree.obj.type) || !typedT tree then [] else ["hypothesis-typedT-not-preserved"])
       "ret=0 errno=ok" ++ (if probs.isEmpty then "" else " MISMATCH " ++ ",".intercalate probs)
 
 def step (st : State) (line : String) : State × String :=
